@@ -39,6 +39,26 @@ fn ranks(cbs: &[CbSpec]) -> Vec<i32> {
     r
 }
 
+/// constructed scenarios in addition to the canonical one: for every callback i, everything else is
+/// released densest from t0 and callback i one tick / one callback-length later (it just misses a
+/// polling point and is held back across the next one), with the worst-case budget placement
+fn targeted_scenarios(n: usize, q: u64, costs: &[u64]) -> Vec<RosSched> {
+    let mut v = vec![];
+    let longest = costs.iter().copied().max().unwrap_or(1);
+    for i in 0..n {
+        for late in [1u64, longest, longest + 1] {
+            let mut phases = vec![0u64; n];
+            phases[i] = late;
+            v.push(RosSched { t0: 0, choices: vec![vec![]; n], phases, exec_cut: vec![], placement: Placement::early_then_late(q) });
+        }
+        // ... and the other way round: callback i first, everything else one tick later
+        let mut phases = vec![1u64; n];
+        phases[i] = 0;
+        v.push(RosSched { t0: 0, choices: vec![vec![]; n], phases, exec_cut: vec![], placement: Placement::early_then_late(q) });
+    }
+    v
+}
+
 fn scalar(c: &CostSpec) -> u64 {
     match c {
         CostSpec::Scalar { c } => *c,
@@ -169,6 +189,7 @@ fn check_c04(c: &C04Case) -> CheckResult {
     let span = (4 * maxr + 3 * maxscale + 50).min(1500);
     let (q, _, _) = c.wl.supply.qdp().unwrap();
     let mut all = vec![ros_canonical(n, q)];
+    all.extend(targeted_scenarios(n, q, &costs));
     all.extend(c.scheds.iter().cloned());
     let sources: Vec<Option<&ArrSpec>> = (0..n)
         .map(|i| if i < n0 { Some(&cbs[i].arr) } else if i == n0 { c.chain.as_ref().map(|c| &c.source) } else { None })
@@ -348,7 +369,7 @@ fn check_ev(c: &EvCase) -> CheckResult {
 pub fn def_c04() -> PropertyDef {
     PropertyDef {
         id: "C04",
-        rule: "generated: executor workloads of 1-4 externally triggered callbacks (timers / polled, unique priorities, scalar costs <= 6, arrival specs as C01 incl. jitter > period, bursts, Never) and optionally a processing chain of 1-4 polled callbacks triggered by one source; supply Dedicated / Periodic(Q,P) / Constrained(Q,D,P) with P <= 8; utilisation steered to 0.3-1.0 of the reservation's bandwidth; limit 3000 or small. Calls: rta_timer (interference = higher-priority timers, blocking = longest other callback - 1) and rta_polling_point_callback (interference = all other callbacks) for every callback of chain-free workloads, rta_processing_chain (last / prefix / full with the source curve, others = all externally triggered callbacks) otherwise; a separate sub-check runs rta_event_source against FIFO service of the streams inside the reservation. Per case: the canonical scenario (everything densest from t0, all WCET, budget early in the first period then late, timeline starting right after the early budget) plus 4-7 generated scenarios (release decisions, phases, execution-time cuts, budget placement per period, phase of the reservation). Oracle: executor + reservation simulator (ros.rs); no instance (chains: source arrival to completion of the last callback) may exceed Ok(R). Non-trivial: >= 2 callbacks or a non-dedicated supply, and some instance waited. Distinct by case JSON.".into(),
+        rule: "generated: executor workloads of 1-4 externally triggered callbacks (timers / polled, unique priorities, scalar costs <= 6, arrival specs as C01 incl. jitter > period, bursts, Never) and optionally a processing chain of 1-4 polled callbacks triggered by one source; supply Dedicated / Periodic(Q,P) / Constrained(Q,D,P) with P <= 8; utilisation steered to 0.3-1.0 of the reservation's bandwidth; limit 3000 or small. Calls: rta_timer (interference = higher-priority timers, blocking = longest other callback - 1) and rta_polling_point_callback (interference = all other callbacks) for every callback of chain-free workloads, rta_processing_chain (last / prefix / full with the source curve, others = all externally triggered callbacks) otherwise; a separate sub-check runs rta_event_source against FIFO service of the streams inside the reservation. Per case: the canonical scenario (everything densest from t0, all WCET, budget early in the first period then late, timeline starting right after the early budget), 4 targeted scenarios per callback (that callback released 1 / longest / longest+1 ticks after everything else, or everything else one tick after it) plus 4-7 generated scenarios (release decisions, phases, execution-time cuts, budget placement per period, phase of the reservation). Oracle: executor + reservation simulator (ros.rs); no instance (chains: source arrival to completion of the last callback) may exceed Ok(R). Non-trivial: >= 2 callbacks or a non-dedicated supply, and some instance waited. Distinct by case JSON.".into(),
         assumptions: vec![
             "executor model of ros.rs (timers first by priority; polled callbacks once per polling window from a ready set refreshed only when empty; non-preemptive; chain successors activated at completion); scalar execution-time bounds".into(),
             "a reservation delivers exactly its budget in every period, anywhere within the first D slots".into(),
@@ -460,6 +481,7 @@ fn check_c05(c: &C05Case) -> CheckResult {
     let span = (4 * maxr + 3 * maxscale + 50).min(1500);
     let (q, _, _) = c.wl.supply.qdp().unwrap();
     let mut all = vec![ros_canonical(n, q)];
+    all.extend(targeted_scenarios(n, q, &costs));
     all.extend(c.scheds.iter().cloned());
     let sources: Vec<Option<&ArrSpec>> = cbs.iter().map(|c| Some(&c.arr)).collect();
     let cost_refs: Vec<&CostSpec> = cbs.iter().map(|c| &c.cost).collect();
@@ -507,7 +529,7 @@ fn check_c05(c: &C05Case) -> CheckResult {
 pub fn def_c05() -> PropertyDef {
     PropertyDef {
         id: "C05",
-        rule: "generated: workloads of 1-4 callbacks mixing timers, Polled(prio) and PolledUnknownPrio (the declared kind is generated independently of the simulator's true priority order), scalar costs, arrival specs as C01, supply as C04, utilisation steered to 0.2-0.85 of the bandwidth; analysis rr or bw. The self-consistent bound vector is obtained as the property prescribes: start at the WCETs, re-run the singleton-subchain analysis for every callback with the current vector, repeat until nothing changes (divergent / Err vectors are counted and skipped). Per case the canonical scenario plus 4-7 generated scenarios (as C04). Oracle: executor + reservation simulator; every instance of every callback must respond within its bound. Non-trivial: converged, >= 2 callbacks of which >= 1 polled, and some polled instance waited through >= 2 polling points. Distinct by case JSON.".into(),
+        rule: "generated: workloads of 1-4 callbacks mixing timers, Polled(prio) and PolledUnknownPrio (the declared kind is generated independently of the simulator's true priority order), scalar costs, arrival specs as C01, supply as C04, utilisation steered to 0.2-0.85 of the bandwidth; analysis rr or bw. The self-consistent bound vector is obtained as the property prescribes: start at the WCETs, re-run the singleton-subchain analysis for every callback with the current vector, repeat until nothing changes (divergent / Err vectors are counted and skipped). Per case the canonical scenario, 4 targeted scenarios per callback and 4-7 generated scenarios (as C04). Oracle: executor + reservation simulator; every instance of every callback must respond within its bound. Non-trivial: converged, >= 2 callbacks of which >= 1 polled, and some polled instance waited through >= 2 polling points. Distinct by case JSON.".into(),
         assumptions: vec![
             "executor model of ros.rs; scalar execution-time bounds; all callbacks externally triggered (singleton subchains, as in the property)".into(),
             "a reservation delivers exactly its budget in every period, anywhere within the first D slots".into(),
